@@ -70,7 +70,7 @@ Qed.
 Definition max_delay : Z := 64000000000 - 3815.
 
 Theorem estimate_recovers send delay :
-  in_era send -> in_era (send + delay) -> 0 <= delay < max_delay ->
+  in_era send -> in_era (send + delay) -> 0 <= delay <= max_delay ->
   0 <= send - estimate (new_abs_send_time send) (send + delay) <= 3816.
 Proof.
   intros Hs Hr Hd. unfold estimate, new_abs_send_time, max_delay in *. cbv zeta.
@@ -140,7 +140,7 @@ Proof.
 Qed.
 
 Theorem estimate_recovers_late send delay :
-  in_era send -> ~ in_era (send + delay) -> 0 <= delay < max_delay ->
+  in_era send -> ~ in_era (send + delay) -> 0 <= delay <= max_delay ->
   0 <= send - estimate (new_abs_send_time send) (send + delay) <= 3816.
 Proof.
   intros Hs Hnr Hd. unfold estimate, new_abs_send_time, max_delay in *. cbv zeta.
@@ -195,7 +195,7 @@ Qed.
 
 (* ... so the receive instant needs no hypothesis of its own *)
 Theorem estimate_recovers_any send delay :
-  in_era send -> 0 <= delay < max_delay ->
+  in_era send -> 0 <= delay <= max_delay ->
   0 <= send - estimate (new_abs_send_time send) (send + delay) <= 3816.
 Proof.
   intros Hs Hd.
